@@ -28,7 +28,7 @@ def main():
     from harness.gen import single as S
     from sidemantic import PreAggregation, SemanticLayer
     cases = json.load(sys.stdin)
-    out = {"sql": [], "seq": [], "mutated": []}
+    out = {"sql": [], "seq": [], "mutated": [], "seq2": []}
     for c in cases:
         def fresh():
             if c["kind"] == "multi":
@@ -68,7 +68,19 @@ def main():
             seq[i] = compile_one(shared, q)
             seq[i] = compile_one(shared, q)      # a repeated call
         out["seq"].append([seq[i] for i in range(len(c["queries"]))])
-        out["mutated"].append(snapshot(shared) != before)
+        mutated = snapshot(shared) != before
+        # further histories: each listed order of (possibly repeated) query indices on its own shared layer
+        hist = []
+        for order in c.get("orders", []):
+            shared = fresh()
+            before = snapshot(shared)
+            got = {}
+            for i in order:
+                got[str(i)] = compile_one(shared, c["queries"][i])
+            hist.append(got)
+            mutated = mutated or snapshot(shared) != before
+        out["seq2"].append(hist)
+        out["mutated"].append(mutated)
     json.dump(out, sys.stdout)
 
 
